@@ -368,6 +368,10 @@ func (c *Ctx) DerivesFrom(v ssa.Value, pred func(ssa.Value) bool, depth int) boo
 		case *ssa.Alloc:
 			for _, r := range eng.Referrers(x) {
 				switch fa := r.(type) {
+				case *ssa.Store:
+					if fa.Addr == ssa.Value(x) && rec(fa.Val, d+1) {
+						return true
+					}
 				case *ssa.FieldAddr:
 					for _, r2 := range eng.Referrers(fa) {
 						if s, ok := r2.(*ssa.Store); ok && s.Addr == ssa.Value(fa) && rec(s.Val, d+1) {
@@ -677,4 +681,91 @@ func (c *Ctx) ObSuccessAfter(rule, construct string, fn *ssa.Function, via ssa.I
 	}
 	c.R.OK(rule, construct, c.pos(via), fmt.Sprintf("on each of the %d path state(s) reaching this site, no success return is reachable without %s", n, what))
 	return true
+}
+
+// staleElementStores finds stores through the address of a slice element
+// (&S[i] or a field of it) where S was loaded from a struct field or a
+// captured variable and that field/variable can be re-assigned (append,
+// re-slice) on a path between the load and the store: the store then goes to
+// the old backing array or the wrong element.
+func (c *Ctx) staleElementStores(fn *ssa.Function) (checked int, bad []ssa.Instruction) {
+	eng.Instrs(fn, func(in ssa.Instruction) {
+		st, ok := in.(*ssa.Store)
+		if !ok {
+			return
+		}
+		// address chain down to an IndexAddr
+		var a ssa.Value = st.Addr
+		var ia *ssa.IndexAddr
+		for i := 0; i < 4 && ia == nil; i++ {
+			switch x := a.(type) {
+			case *ssa.FieldAddr:
+				a = x.X
+			case *ssa.IndexAddr:
+				ia = x
+			default:
+				i = 4
+			}
+		}
+		if ia == nil {
+			return
+		}
+		if _, isSlice := ia.X.Type().Underlying().(*types.Slice); !isSlice {
+			return
+		}
+		ld, ok := ia.X.(*ssa.UnOp)
+		if !ok || ld.Op != token.MUL {
+			return
+		}
+		// where the slice header lives
+		sameCell := func(addr ssa.Value) bool {
+			switch h := ld.X.(type) {
+			case *ssa.FieldAddr:
+				fa, ok := addr.(*ssa.FieldAddr)
+				return ok && eng.FieldVar(fa.X.Type(), fa.Field) == eng.FieldVar(h.X.Type(), h.Field)
+			case *ssa.FreeVar, *ssa.Alloc:
+				return addr == ld.X
+			}
+			return false
+		}
+		switch ld.X.(type) {
+		case *ssa.FieldAddr, *ssa.FreeVar, *ssa.Alloc:
+		default:
+			return
+		}
+		checked++
+		// a path load -> reassignment -> store ?
+		x1 := c.explorer(fn)
+		x1.From = ld
+		x1.Barrier = func(i2 ssa.Instruction, s2 *eng.State) bool { return i2 == in }
+		x1.Target = func(i2 ssa.Instruction, s2 *eng.State) bool {
+			s3, ok := i2.(*ssa.Store)
+			return ok && s3 != st && sameCell(s3.Addr)
+		}
+		for _, h := range x1.Run() {
+			x2 := c.explorer(fn)
+			x2.From = h.Instr
+			x2.Init = h.St
+			x2.Barrier = func(i2 ssa.Instruction, s2 *eng.State) bool { return i2 == ssa.Instruction(ld) }
+			x2.Target = func(i2 ssa.Instruction, s2 *eng.State) bool { return i2 == in }
+			x2.StopAtTarget = true
+			if len(x2.Run()) > 0 {
+				bad = append(bad, in)
+				return
+			}
+		}
+	})
+	return
+}
+
+// ObNoStaleElementStores records the stale-element rule for fn.
+func (c *Ctx) ObNoStaleElementStores(rule string, fn *ssa.Function, floor int, what string) {
+	n, bad := c.staleElementStores(fn)
+	for i, b := range bad {
+		c.R.Fail(rule, fmt.Sprintf("%s/stale-element-store#%d", c.name(fn), i+1), c.pos(b), "a "+what+" is updated through an element address taken before the slice was re-assigned (append may move the backing array, a re-slice may drop the element): the update is lost")
+	}
+	if len(bad) == 0 {
+		c.R.OK(rule, c.name(fn)+"/element-stores-fresh", c.P.Pos(fn.Pos()), fmt.Sprintf("%d store(s) into slice elements, each through an address computed after the last re-assignment of the slice", n))
+	}
+	c.R.Floor(rule, "stores into slice elements in "+c.name(fn), n, floor)
 }
